@@ -112,7 +112,7 @@ func sortedPairs(m map[string][]string) [][]interface{} {
 }
 
 var cfgPaths = []string{"/a", "/a/b", "/a-b", "/", "/jobs", "/int", "/x/y/z", "/hooks", "/A"}
-var cfgHosts = []string{"example.com", "*.example.com", "api.example.com", "*", "EXAMPLE.org", "[::1]", "localhost", "*.b.example.com"}
+var cfgHosts = []string{"example.com", "*.example.com", "api.example.com", "*", "EXAMPLE.org", "[::1]", "localhost", "*.b.example.com", "*.example.com.", "example.org.", "*.B.Example.com."}
 var cfgMethods = []string{"POST", "PUT", "GET", "DELETE", "PATCH"}
 
 // one match block as generated: the text of its directives and what it means
@@ -121,19 +121,14 @@ type genMatch struct {
 	m     jroute // only the match fields are used
 }
 
-var hostNormCache = map[string]string{}
-
-// the compiled form of ONE host pattern, obtained by compiling a configuration that contains nothing else: element
-// normalisation is the compiler's, how elements are combined (lists, named matchers, routes) is the generator's
+// what a host pattern of a `match { host … }` directive means, stated here independently of the compiler: case does not
+// matter, a trailing dot (FQDN form) does not matter, `*` alone is every host, `*.d` is the sub-domains of d, an IPv6
+// literal may be bracketed. (The generator never writes ports or URLs into patterns.)
 func normHostPattern(h string) string {
-	if v, ok := hostNormCache[h]; ok {
-		return v
+	v := strings.TrimSuffix(strings.ToLower(strings.TrimSpace(h)), ".")
+	if strings.HasPrefix(v, "[") && strings.HasSuffix(v, "]") {
+		v = strings.Trim(v, "[]")
 	}
-	v := h
-	if c, err := compileText(fmt.Sprintf("pull_api {\n  auth token raw:t\n}\n/n {\n  match {\n    host \"%s\"\n  }\n  pull { path /pull/n }\n}\n", h)); err == nil && len(c.Routes) == 1 && len(c.Routes[0].Match.Hosts) == 1 {
-		v = c.Routes[0].Match.Hosts[0]
-	}
-	hostNormCache[h] = v
 	return v
 }
 
